@@ -534,7 +534,10 @@ fn run_op(st: &mut St, op: &Value) -> Value {
     let name = op["op"].as_str().unwrap();
     match name {
         "new_graph" => {
-            st.g = Graph::new();
+            st.g = match op.get("refs_extension").and_then(|e| e.as_str()) {
+                Some(e) => Graph::new_with_options(MarkdownOptions { refs_extension: e.to_string() }),
+                None => Graph::new(),
+            };
             st.g.set_sequential_keys(true);
             json!({})
         }
@@ -610,7 +613,10 @@ fn run_op(st: &mut St, op: &Value) -> Value {
             // the real thing: format, read the formatted text back, format again
             let k = key(op);
             let t1 = gr(st).to_markdown(&k);
-            let mut g2 = Graph::new();
+            let mut g2 = match op.get("refs_extension").and_then(|e| e.as_str()) {
+                Some(e) => Graph::new_with_options(MarkdownOptions { refs_extension: e.to_string() }),
+                None => Graph::new(),
+            };
             g2.from_markdown(k.clone(), &t1, MarkdownReader::new());
             let t2 = g2.to_markdown(&k);
             json!([t1, t2])
